@@ -165,8 +165,14 @@ def type_at(t, v, path):
     return t, v
 
 
+INDEX_KINDS = {"h-i8": np.int8, "h-u8": np.uint8, "h-i16": np.int16}
+
+
 def do_set(s, via, path, val):
-    if via in ("h", "v"):
+    if via in INDEX_KINDS:
+        with hand.index_kind(INDEX_KINDS[via]):
+            hand.assign(s.t, s.h, path, val)
+    elif via in ("h", "v"):
         rt, rh = handle_for(s, via, path)
         if rt[0] == "U" and via == "v":
             # the view of a union reference is its target: continue below the member marker
@@ -213,6 +219,11 @@ def events(s, opts, depth_now):
                 if via == "n" and path[-2] in ("*", "#") and len(path) < 3 and False:
                     continue
                 evs.append(("set", via, path, val))
+        if depth_now == 0 and opts.get("index_kinds") and any(isinstance(p, tuple) and any(i > 0 for i in p) for p in path):
+            # the same element addressed with small numpy integers (strides times index overflow their range)
+            for val in leaf_candidates(lt, lv, room, n + i)[:1]:
+                for via in opts["index_kinds"]:
+                    evs.append(("set", via, path, val))
     if opts.get("compounds", True):
         for path, ct, cv in xt.compound_paths(t, mv):
             if path[-1] in ("*", "#"):
